@@ -9,10 +9,14 @@
  *              1: one pthread per stream, each issues its own events (concurrently)
  *    dictionary entry j (base key j+1; base key 0 is the reserved "N/A"):
  *              name/attributes/convertor are gstr('k'|'a'|'c', j, len), info length ilen
+ *              an optional fifth field ":b" makes the three strings derive from index b instead of j (entries of
+ *              several ranks, or two entries of one rank, then share them); names longer than 63 characters
+ *              depend on j from the 64th character on (kname)
  *    ninfo_i   number of key/value infos attached to stream i (hr_id "s<i>"); a number above 15: one
  *              info "big" whose value has that many characters
  *    event     stream, key (2*base + 0 start / 1 end), user flags, taskpool id,
  *              event id, info: '-' (NULL pointer) or a seed (info byte m = ibyte(seed, m))
+ * case  "M <order> || <case of rank 0> || <case of rank 1> .."  several ranks, files opened together (multi_case)
  * Every case writes <casefile>.d/c<index>-0.prof (kept for the model driver,
  * which runs the extracted decoder on the same bytes and deletes it).
  *
@@ -36,7 +40,7 @@
 #define CASE_SECONDS 20
 
 typedef struct { int sid, key, uflags, hasinfo, seed; uint32_t tp; uint64_t id; } ev_t;
-static int nk, klen[MAXK][4];
+static int nk, klen[MAXK][5];      /* name, attributes, convertor, info lengths; index the strings derive from */
 static int ns, ninfo[MAXS];
 static ev_t evs[MAXE]; static int nev;
 static int skey[MAXK], ekey[MAXK];
@@ -47,6 +51,12 @@ static void gstr(char *out, char tag, int j, int len) {
     char pre[32]; int pl = snprintf(pre, sizeof pre, "%c%d_", tag, j);
     for (int m = 0; m < len; m++) out[m] = (m < pl) ? pre[m] : (char)('a' + ((j * 7 + m * 3) % 26));
     out[len] = 0;
+}
+/* name of dictionary entry j: derived from index b (several entries, or entries of several ranks, may share b);
+ * from the 64th character on it depends on j, so that entries sharing b differ only beyond what the file stores */
+static void kname(char *out, int j, int b, int len) {
+    gstr(out, 'k', b, len);
+    for (int m = 63; m < len; m++) out[m] = (char)('A' + ((j + m) % 26));
 }
 static unsigned char ibyte(int seed, int m) { return (unsigned char)((seed * 31 + m * 7 + (m >> 8) * 13 + 1) & 0xff); }
 static uint32_t fnv(const unsigned char *p, int n) {
@@ -78,7 +88,9 @@ static int parse_case(char *l, int *pages, int *mode) {
     if (sscanf(sec[0], "%d %d %d", pages, mode, &ns) != 3 || ns < 1 || ns > MAXS) return -1;
     nk = 0;
     for (char *t = strtok(sec[1], " "); t; t = strtok(NULL, " ")) {
-        if (nk >= MAXK || sscanf(t, "%d:%d:%d:%d", &klen[nk][0], &klen[nk][1], &klen[nk][2], &klen[nk][3]) != 4) return -1;
+        if (nk >= MAXK) return -1;
+        klen[nk][4] = nk;
+        if (sscanf(t, "%d:%d:%d:%d:%d", &klen[nk][0], &klen[nk][1], &klen[nk][2], &klen[nk][3], &klen[nk][4]) < 4) return -1;
         nk++;
     }
     int i = 0;
@@ -99,15 +111,15 @@ static int parse_case(char *l, int *pages, int *mode) {
     return 0;
 }
 
-static void write_profile(const char *base, int pages, int mode) {
+static void write_profile(const char *base, int pages, int mode, int rank) {
     char v[32]; snprintf(v, sizeof v, "%d", pages);
     setenv("PARSEC_MCA_profile_buffer_pages", v, 1);
     first_rc = 0;
-    note_rc(parsec_profiling_init(0));
+    note_rc(parsec_profiling_init(rank));
     note_rc(parsec_profiling_dbp_start(base, "C42 harness"));
     for (int j = 0; j < nk; j++) {
         char name[512], attr[512], conv[4096];
-        gstr(name, 'k', j, klen[j][0]); gstr(attr, 'a', j, klen[j][1]); gstr(conv, 'c', j, klen[j][2]);
+        kname(name, j, klen[j][4], klen[j][0]); gstr(attr, 'a', klen[j][4], klen[j][1]); gstr(conv, 'c', klen[j][4], klen[j][2]);
         note_rc(parsec_profiling_add_dictionary_keyword(name, attr, (size_t)klen[j][3],
                                                         klen[j][2] < 0 ? NULL : conv, &skey[j], &ekey[j]));
     }
@@ -135,13 +147,12 @@ static void write_profile(const char *base, int pages, int mode) {
     note_rc(parsec_profiling_fini());
 }
 
-static void read_profile(char *fname, FILE *out) {
-    char *files[1] = { fname };
-    dbp_multifile_reader_t *dbp = dbp_reader_open_files(1, files);
+/* everything the reader API tells about file number fidx of an opened set */
+static void read_one(dbp_multifile_reader_t *dbp, int fidx, int err, int rc, FILE *out) {
     int mono = 1;
-    fprintf(out, "err=%d", dbp_reader_last_error(dbp));
-    if (dbp_reader_nb_files(dbp) < 1 || dbp_reader_last_error(dbp) != 0) { fprintf(out, " <unreadable>"); goto end; }
-    dbp_file_t *file = dbp_reader_get_file(dbp, 0);
+    fprintf(out, "err=%d", err);
+    if (dbp_reader_nb_files(dbp) <= fidx || err != 0) { fprintf(out, " <unreadable>"); goto end; }
+    dbp_file_t *file = dbp_reader_get_file(dbp, fidx);
     fprintf(out, " D");
     for (int i = 0; i < dbp_file_nb_dictionary_entries(file); i++) {
         dbp_dictionary_t *d = dbp_file_get_dictionary(file, i);
@@ -172,7 +183,54 @@ static void read_profile(char *fname, FILE *out) {
         dbp_iterator_delete(it);
     }
 end:
-    fprintf(out, " | mono=%d rc=%d enc=ok\n", mono, first_rc);
+    fprintf(out, " | mono=%d rc=%d enc=ok", mono, rc);
+}
+
+static void read_profile(char *fname, FILE *out) {
+    char *files[1] = { fname };
+    dbp_multifile_reader_t *dbp = dbp_reader_open_files(1, files);
+    read_one(dbp, 0, dbp_reader_last_error(dbp), first_rc, out);
+    fprintf(out, "\n");
+}
+
+/* "M <order> || case of rank 0 || case of rank 1 [|| case of rank 2]": every rank writes its own file
+ * <base>-<rank>.prof (own dictionary, streams, events); the files are then opened together in the given order
+ * (a string of rank digits) and each is read back through the reader's merged dictionary.
+ * observation: "M || <observation of the first file opened> || <of the second> .." */
+#define MAXR 3
+static void multi_case(char *l, const char *base, FILE *out) {
+    char *sub[MAXR + 1]; int nsub = 0; char order[16] = "";
+    for (char *p = l; p && nsub <= MAXR; ) {
+        char *q = strstr(p, "||");
+        if (q) { *q = 0; q += 2; }
+        sub[nsub++] = p; p = q;
+    }
+    int nr = nsub - 1, rcs[MAXR];
+    if (nr < 1 || nr > MAXR || sscanf(sub[0], "M %15s", order) != 1) { fprintf(out, "<bad case>\n"); return; }
+    for (int r = 0; r < nr; r++) {
+        int pages, mode;
+        if (parse_case(sub[r + 1], &pages, &mode) != 0) { fprintf(out, "<bad case>\n"); return; }
+        /* one process per rank, as in a real run (the writer's file backend state is per process) */
+        fflush(out);
+        pid_t pid = fork();
+        if (pid == 0) { write_profile(base, pages, mode, r); _exit((-first_rc) & 0x7f); }
+        int st = 0; waitpid(pid, &st, 0);
+        if (!WIFEXITED(st)) { fprintf(out, "<rank %d: writer killed by signal %d>\n", r, WTERMSIG(st)); return; }
+        rcs[r] = -WEXITSTATUS(st);
+    }
+    char names[MAXR][4400]; char *files[MAXR]; int ranks[MAXR], nf = 0;
+    for (char *o = order; *o && nf < MAXR; o++) {
+        int r = *o - '0'; if (r < 0 || r >= nr) continue;
+        snprintf(names[nf], sizeof names[nf], "%s-%d.prof", base, r); files[nf] = names[nf]; ranks[nf] = r; nf++;
+    }
+    dbp_multifile_reader_t *dbp = dbp_reader_open_files(nf, files);
+    fprintf(out, "M");
+    for (int f = 0; f < nf; f++) {
+        fprintf(out, " || ");
+        int err = (f < dbp_reader_nb_files(dbp)) ? dbp_file_error(dbp_reader_get_file(dbp, f)) : -1;
+        read_one(dbp, f, err, rcs[ranks[f]], out);
+    }
+    fprintf(out, "\n");
 }
 
 int main(int argc, char **argv) {
@@ -186,7 +244,8 @@ int main(int argc, char **argv) {
         int pages, mode;
         char base[4200], fname[4300];
         snprintf(base, sizeof base, "%s/c%d", dir, idx); snprintf(fname, sizeof fname, "%s-0.prof", base); idx++;
-        if (parse_case(l, &pages, &mode) != 0) { printf("<bad case>\n"); fflush(stdout); continue; }
+        int multi = (l[0] == 'M');
+        if (!multi && parse_case(l, &pages, &mode) != 0) { printf("<bad case>\n"); fflush(stdout); continue; }
         fflush(stdout);
         int pfd[2]; if (pipe(pfd) != 0) { printf("<pipe failed>\n"); continue; }
         pid_t pid = fork();
@@ -194,8 +253,8 @@ int main(int argc, char **argv) {
             close(pfd[0]); alarm(CASE_SECONDS);
             FILE *out = fdopen(pfd[1], "w");
             int e2 = dup(2); freopen("/dev/null", "w", stderr);   /* the writer and the reader chat on stderr */
-            write_profile(base, pages, mode);
-            read_profile(fname, out);
+            if (multi) multi_case(l, base, out);
+            else { write_profile(base, pages, mode, 0); read_profile(fname, out); }
             fflush(out); (void)e2; _exit(0);
         }
         close(pfd[1]);
